@@ -150,7 +150,7 @@ CHECKS["C13"] = dict(
           "get an error and no node logs an arrival. part e2e-concurrent: 1..6 writers re-writing and 1..6 readers reading 4..40 compressible "
           "values for 50..600 rounds at once over the same backend connections (the filter compresses on the backend writer and "
           "decompresses on the backend reader goroutine): every read equals what was written and the stored forms satisfy the relation. "
-          "Non-trivial: some value was actually stored compressed (unit), and additionally the "
+          "The e2e histories also start without a compression section (it arrives with the first toggle), use replicas and read strategies, and write with SET ... GET (the reply is a read-back of the old value). Non-trivial: some value was actually stored compressed (unit), and additionally the "
           "write was redirected, or happened after a toggle, or was a multi-value command (e2e); distinct by canonical JSON."),
     assumptions=["values that themselves start with the magic number '(P$' are excluded by construction (the statement excludes them)",
                  "the snappy library (github.com/golang/snappy) is trusted as the decoder of the stored stream"],
@@ -528,7 +528,7 @@ CHECKS["C05"] = dict(
           "a close script: both sides half-close after sending; client half-closes first and the backend sends 0..70000 more bytes only "
           "after it has seen the client's EOF; the mirror image; one side finishing only after the other's EOF. Oracle: each side receives "
           "exactly the peer's bytes (length and content, position-checked) and sees EOF only after all of them; data sent after the peer's "
-          "half-close still arrives; nothing from another connection's pattern appears. Non-trivial: both directions exceed one 16 KiB "
+          "half-close still arrives; nothing from another connection's pattern appears. part pingpong: request/response traffic against an echo backend: 1..12 messages of 1, 2, 3, 5, 100, 16383..16385, 32769 or 70000 bytes, each echoed completely (10 s) before the next is sent. Non-trivial: both directions exceed one 16 KiB "
           "buffer, or data is sent after the peer's half-close. Distinct by canonical JSON."),
     assumptions=["the idle time-out (10 min) is larger than every generated gap: the idle cut-off itself is not exercised",
                  "abortive closes (RST with unread data) are not generated: TCP itself then drops data"],
